@@ -115,6 +115,7 @@ pub fn jobs() -> usize {
 struct Inner {
     /// key -> (count, first description)
     violations: BTreeMap<String, (u64, String, PathBuf)>,
+    collected: Vec<(String, String, Value)>,
     known: BTreeMap<String, (u64, String)>,
     notes: Vec<String>,
 }
@@ -128,6 +129,9 @@ pub struct Ctx {
     known_list: Vec<KnownFinding>,
     inner: Mutex<Inner>,
     pub replay_mode: bool,
+    /// child processes of an engine: violations are collected (first case of every key), not reported; the parent
+    /// process reports them
+    pub collect_only: bool,
 }
 
 impl Ctx {
@@ -140,8 +144,9 @@ impl Ctx {
             level,
             start: Instant::now(),
             known_list,
-            inner: Mutex::new(Inner { violations: BTreeMap::new(), known: BTreeMap::new(), notes: Vec::new() }),
+            inner: Mutex::new(Inner { violations: BTreeMap::new(), known: BTreeMap::new(), notes: Vec::new(), collected: Vec::new() }),
             replay_mode: false,
+            collect_only: false,
         }
     }
 
@@ -170,6 +175,12 @@ impl Ctx {
     /// an output line; later ones are counted.
     pub fn violation(&self, key: &str, description: &str, replay: Value) {
         let mut inner = self.inner.lock().unwrap();
+        if self.collect_only {
+            if !inner.collected.iter().any(|(k, _, _)| k == key) {
+                inner.collected.push((key.to_string(), description.to_string(), replay));
+            }
+            return;
+        }
         if self.is_known(key) {
             let e = inner.known.entry(key.to_string()).or_insert((0, description.to_string()));
             e.0 += 1;
@@ -199,6 +210,11 @@ impl Ctx {
         println!("  key: {key}");
         println!("  what: {description}");
         inner.violations.insert(key.to_string(), (1, description.to_string(), path));
+    }
+
+    /// (key, description, replay case) of what a collect-only context gathered
+    pub fn collected_violations(&self) -> Vec<(String, String, Value)> {
+        self.inner.lock().unwrap().collected.clone()
     }
 
     pub fn violation_count(&self) -> usize {
